@@ -166,9 +166,13 @@ def main(tier, seed, replay=None):
         progs = deep + [s for nm in themes for s in themes[nm]
                         if hash(s.key()) % (150 if tier == 'quick' else 6) == 0]
         nm = 0
-        for s in progs:
-            t = concretise(s, seed=rng.randrange(999), pools='rich',
-                           gaps=layout_variant(s, rng, 0.15))
+        bases = [concretise(s, seed=rng.randrange(999), pools='rich',
+                            gaps=layout_variant(s, rng, 0.15)) for s in progs]
+        # the programs the repository's own tests parse (DESIGN 4.5)
+        corpus = [t for t in gen.suite_corpus(rep) if len(t) <= 400]
+        if tier == 'quick':
+            corpus = [t for j, t in enumerate(corpus) if j % 4 == seed % 4]
+        for t in bases + corpus:
             for cut in range(len(t)):
                 texts.append(t[:cut])
             for _ in range(12):
